@@ -35,6 +35,7 @@ def check(ctx: Ctx, rep: Report):
     rep.rule("C06.R3", "the lock is released before every recursive retry and nothing is sent in between", 3)
     rep.rule("C06.R4", "an unlocked transport close in task context follows a lock-held region without an intervening suspension", 4)
     rep.rule("C06.R5", "send_request awaits and returns the future created by this activation", 2)
+    rep.rule("C06.R6", "at most one live timeout per protocol object: a timer is armed only after the previous handle was cancelled, fired or is absent; receive paths that complete a request have cancelled it", 6)
     ms = ctx.memo("maysuspend", lambda: MaySuspend(ctx.prog, ctx.res))
     for ci in proto_classes(ctx):
         r1(ctx, rep, ci)
@@ -43,6 +44,7 @@ def check(ctx: Ctx, rep: Report):
         if cl is not None:
             lock_typestate(ctx, rep, ci, cl, ms)
         r5(ctx, rep, ci)
+        r6(ctx, rep, ci)
     r4_execute(ctx, rep, ms)
 
 
@@ -61,8 +63,10 @@ def r1(ctx, rep, ci):
             sends = False
             for n in ast.walk(m.node):
                 if isinstance(n, ast.stmt):
-                    for a, _, _ in self_store(n):
+                    for a, v, _ in self_store(n):
                         if a in INFLIGHT:
+                            if m.name == "_close_transport" and isinstance(v, ast.Constant) and v.value in (None, 0, False):
+                                continue   # clearing state while closing binds no request
                             stores.add(a)
                 if isinstance(n, ast.Call) and (call_chain(n) or ())[:2] == ("self", "_transport") and (call_chain(n) or ("",))[-1] in ("sendto", "write"):
                     sends = True
@@ -252,3 +256,47 @@ def r5(ctx, rep, ci):
                 ok, why = False, "_send_request does not bind the future it is given as self.response_future"
     rep.check(ok, "C06.R5", "own-future:%s" % ci.name, fn.loc(), "%s.send_request waits on and returns the future of this activation" % ci.name,
               bad="%s.send_request %s: a caller could receive another request's answer" % (ci.name, why))
+
+
+# ----------------------------------------------------------------------- R6
+def r6(ctx, rep, ci):
+    """A stale timeout callback acts on whatever request is in flight when it fires (it cancels self.response_future),
+    so a live timer must never be orphaned: overwriting self._timer needs the old handle cancelled / fired / absent."""
+    cbs = [f for f in loop_callbacks(ctx, ci) if f.name in ("datagram_received", "data_received", "_timeout_mechanism")]
+    for cb in cbs:
+        sites = {}
+        ends = {}
+        for p in protocol_paths(ctx, cb):
+            # typestate of the handle referenced by self._timer: 'live?' at entry (the callback may run with a timer armed)
+            state = "fired" if cb.name == "_timeout_mechanism" else "maybe-live"
+            for i, ev in enumerate(p.events):
+                t = tags(ev)
+                if ev.kind == "test" and chain(ev.node) == ("self", "_timer") and ev.data is False:
+                    state = "absent"
+                if ev.kind == "call" and "timer_cancel" in t:
+                    state = "cancelled"
+                if ev.kind == "stmt" and "store:_timer" in t:
+                    v = getattr(ev.node, "value", None)
+                    if isinstance(v, ast.Call) and (call_chain(v) or ("",))[-1] in ("call_later", "call_at"):
+                        st = sites.setdefault(id(ev.node), {"node": ev.node, "ok": True, "path": None})
+                        if state == "maybe-live":
+                            st["ok"], st["path"] = False, p
+                        state = "maybe-live"
+                    elif isinstance(v, ast.Constant) and v.value is None:
+                        # forgetting the handle does not stop the timer
+                        if state == "maybe-live":
+                            state = "orphaned"
+                if ev.kind == "call" and (t & {"fut_set_result", "fut_set_exception"}) and cb.name != "_timeout_mechanism":
+                    e = ends.setdefault(id(ev.node), {"node": ev.node, "ok": True, "path": None})
+                    if state in ("maybe-live", "orphaned"):
+                        e["ok"], e["path"] = False, p
+        for st in sites.values():
+            rep.check(st["ok"], "C06.R6", "arm:%s:%s" % (cb.short, norm(st["node"])[:60]), cb.loc(st["node"]),
+                      "%s arms a timer only after cancelling the previous one" % cb.short,
+                      bad="%s overwrites self._timer with a new timer while the previous one may still be live: the stale timeout later cancels whichever request is then in flight [path %s]" % (
+                          cb.short, st["path"].describe(8) if st["path"] else ""))
+        for e in ends.values():
+            rep.check(e["ok"], "C06.R6", "end:%s:%s" % (cb.short, norm(e["node"])[:60]), cb.loc(e["node"]),
+                      "%s completes the request with its timeout cancelled" % cb.short,
+                      bad="%s completes the request (%s) and leaves its timeout armed: it fires during a later request and cancels that one [path %s]" % (
+                          cb.short, norm(e["node"])[:50], e["path"].describe(8) if e["path"] else ""))
